@@ -20,13 +20,13 @@ SPEC = {
     ],
     "assumptions": [
         "statements: one update clause with a MATCH / UNWIND prefix, executed by PreparedQuery::execute_write, one transaction per statement; statements chaining several update clauses (SET ... REMOVE ..., DELETE ... SET ...) are rejected by execute_write and only run through execute_mixed — not generated",
-        "MERGE: node patterns (labels + property map) with ON CREATE / ON MATCH SET on keys disjoint from the pattern keys; relationship MERGE is not modelled",
+        "MERGE: node patterns (labels + property map, any number of UNWIND rows) and relationship patterns between two bound nodes (one row per statement: within one statement the executor tracks the relationships it created individually while the storage keeps one property map per (src,type,dst)); ON CREATE / ON MATCH SET on keys disjoint from the pattern keys",
         "property values null/bool/int/float/string; a relationship key deleted earlier in the history is not created again (K-C06-eprops, a storage finding, would resurrect its properties)",
         "counters: the single u32 returned by execute_write (created / deleted entities, properties set or removed, label items), as the code counts them",
     ],
     "manifest": {
         "category": "proof",
-        "text": "Reference semantics of CREATE, MERGE (node patterns), SET (property, = map, += map, labels), REMOVE, DELETE / DETACH DELETE on evaluated operands, with the engine's change counts. Proved for all graphs and operands: a repeated MERGE statement of any number of rows creates nothing, reports 0 and leaves the graph unchanged (given no ON CREATE / ON MATCH items and no NaN in the pattern; the NaN case is refuted by a witness), the SET/REMOVE algebra (SET then REMOVE = REMOVE, SET null = REMOVE, SET = map keeps exactly the map's non-null keys, += {} is the identity, read-back laws), CREATE adds exactly the counted nodes and changes nothing else, DELETE fails iff a target has a relationship, DETACH DELETE never fails, no relationship of a deleted node remains. Implementation = reference (graph dump and count after every statement of generated sequences) is the sampled part. Partial: MERGE with ON CREATE / ON MATCH items and relationship MERGE are not covered by the idempotence theorem (the harness repeats every generated MERGE, items included, and requires count 0); relationship MERGE is not modelled.",
+        "text": "Reference semantics of CREATE, MERGE (node patterns; relationship patterns between bound nodes), SET (node and relationship property, = map, += map, labels), REMOVE, DELETE / DETACH DELETE on evaluated operands, with the engine's change counts; relationships are identified by (src,type,dst) with a multiplicity and one shared property map, as the storage does. Proved for all graphs and operands: a repeated MERGE statement of any number of rows creates nothing, reports 0 and leaves the graph unchanged (given no ON CREATE / ON MATCH items and no NaN in the pattern; the NaN case is refuted by a witness), the SET/REMOVE algebra (SET then REMOVE = REMOVE, SET null = REMOVE, SET = map keeps exactly the map's non-null keys, += {} is the identity, read-back laws), CREATE adds exactly the counted nodes and changes nothing else, DELETE fails iff a target has a relationship, DETACH DELETE never fails, no relationship of a deleted node remains. Implementation = reference (graph dump and count after every statement of generated sequences) is the sampled part. Partial: MERGE with ON CREATE / ON MATCH items and relationship MERGE are not covered by the idempotence theorem (the harness repeats every generated MERGE, items included, and requires count 0 and unchanged sizes); statements chaining several update clauses (execute_mixed only) and map/REMOVE updates of relationship properties are not modelled.",
         "design_ref": "DESIGN.md §5 C11/C12",
         "level_note": "Trusted: Coq kernel; the reference is tied to the code by sampled correspondence (not by proof); operands taken from the engine's own MATCH results.",
         "technique": "Rocq proof (list induction over rows, map algebra) + vm_compute replay of generated statement sequences + independent Rust reference graph",
